@@ -299,14 +299,16 @@ def get_recursively(d, keys, default=_sentinel):
                     break
         keys = new_keys
     elif isinstance(keys, list):
-        if not all(isinstance(k, str) for k in keys):
-            raise LenaTypeError(
-                "all simple keys must be strings, "
-                "{} given".format(keys)
-            )
+        pass
     else:
         raise LenaTypeError(
             "keys must be a dict, a string or a list of keys, "
+            "{} given".format(keys)
+        )
+
+    if not all(isinstance(k, str) for k in keys):
+        raise LenaTypeError(
+            "all simple keys must be strings, "
             "{} given".format(keys)
         )
 
